@@ -11,6 +11,7 @@ mod rng;
 mod sx;
 
 mod astdump;
+mod c04b;
 mod c05;
 mod c06;
 mod c08;
@@ -102,6 +103,7 @@ fn main() {
     // panics inside the code under test are caught per case; silence the default hook's noise
     std::panic::set_hook(Box::new(|i| { if std::env::var("VERIF_PANIC_TRACE").is_ok() { eprintln!("{i}"); } }));
     match group.as_str() {
+        "c04b" => c04b::run(&args, &mut out),
         "c05" => c05::run(&args, &mut out),
         "c06" => c06::run(&args, &mut out),
         "c08" => c08::run(&args, &mut out),
